@@ -35,6 +35,7 @@ func runC14(c *core.Ctx) {
 	c.Rule("R10", "the token list and token→partition map of a PartitionRing are computed from the descriptor it stores (shared with C13.R5)", 1)
 	c.Rule("R12", "one token, one owner: a conflict is detected on the token value alone, whatever the zones of its holders (shared with C05.R9)", 1)
 	c.Rule("R13", "the equality shortcut that keeps the token index the ranges are computed from compares every token (shared with C05.R13)", 2)
+	c.Rule("R14", "one computation of the ranges: every successful return of a range builder hands back the slice the token walk filled, never a precomputed answer", 2)
 	c.Rule("R2", "a pending range bound recorded with its flag is consumed on every path to a successful return", 2)
 	pkg := c.Prog.Pkg("ring")
 	if pkg == nil {
@@ -69,6 +70,7 @@ func runC14(c *core.Ctx) {
 		c.Analysed(fn.String())
 		c14Sentinel(c, fn)
 		c14Pending(c, fn)
+		c14OnePath(c, fn, tr)
 	}
 	if n < 2 {
 		c.Undec("R1", "builders", pkg.Syntax[0].Pos(), fmt.Sprintf("expected ≥2 functions building TokenRanges, found %d", n))
@@ -734,4 +736,59 @@ func c14PartitionTokensSorted(c *core.Ctx, pkg *packages.Package, R string) {
 		}
 	}
 	c.Check(n > 0 && len(bad) == 0, R, "func=PartitionRingDesc.tokens:sorted", fn.Pos(), fmt.Sprintf("%d returns, each a slice sorted in this function just before: %v", n, bad), n)
+}
+
+
+// c14OnePath (R14): a range builder answers with the ranges its walk over the tokens produced. Every return whose
+// first result is not nil returns one local slice; that local is created empty (make) and only ever extended by
+// appending to itself (directly or through a helper that receives it). A literal or otherwise precomputed answer —
+// "this zone has one instance, so it owns everything" — is decided on something other than the token walk the
+// lookup performs, and disagrees with it on the inputs the shortcut did not think of (instances without tokens,
+// instances of other zones, read-only filters).
+func c14OnePath(c *core.Ctx, fn *an.Fn, tr *types.Named) {
+	var bad []string
+	ok := 0
+	for _, b := range fn.Graph().Blocks {
+		r := an.ReturnOf(b)
+		if r == nil || len(r.Results) == 0 {
+			continue
+		}
+		res := an.Unparen(r.Results[0])
+		if id, isID := res.(*ast.Ident); isID && id.Name == "nil" {
+			continue
+		}
+		obj := fn.ObjOf(res)
+		if obj == nil {
+			bad = append(bad, fmt.Sprintf("returns %s", types.ExprString(res)))
+			continue
+		}
+		made, good := 0, true
+		for _, d := range fn.DefSites(obj) {
+			switch {
+			case d.Zero:
+			case d.Expr == nil:
+				good = false
+			default:
+				call, isCall := an.Unparen(d.Expr).(*ast.CallExpr)
+				if !isCall {
+					good = false
+					break
+				}
+				if id, isID := call.Fun.(*ast.Ident); isID && id.Name == "make" {
+					made++
+					break
+				}
+				// append(x, …) or helper(x, …): the slice itself is the first argument
+				if len(call.Args) == 0 || fn.ObjOf(call.Args[0]) != obj {
+					good = false
+				}
+			}
+		}
+		if good && made == 1 {
+			ok++
+		} else {
+			bad = append(bad, fmt.Sprintf("returns %s, which is not only the walk's own slice (make ×%d, other definitions accepted=%v)", obj.Name(), made, good))
+		}
+	}
+	c.Check(len(bad) == 0 && ok >= 1, "R14", "func="+fn.Name+":one-path", fn.Pos(), fmt.Sprintf("%d successful return(s), each of the slice the token walk filled; other answers: %v", ok, bad), ok)
 }
